@@ -134,9 +134,13 @@ def _check_inst(ctx: Ctx) -> None:
     idx = ctx.idx
     f = idx.find_func("check_inst", MOD)
     ctx.saw("functions", f.qualname)
+    from . import c12_inst
+    sem = c12_inst.run(ctx)  # interpreted on all instantiations of <= 2 type parameters; the loop-shape rule below is its fallback
     loops = [n for n in walk_no_nested(f.node) if isinstance(n, ast.For) and "params" in ast.unparse(n.iter)]
     key = f"{f.qualname}#every-parameter-is-checked"
-    if len(loops) != 1:
+    if sem:
+        pass
+    elif len(loops) != 1:
         ctx.undecided("R-C12.6", key, f.where, f"{len(loops)} loops over the parameters")
     else:
         loop = loops[0]
